@@ -15,8 +15,8 @@ ASSUMPTIONS = ['ridges are 3 map rows thick with the maximum in the middle row (
                'with end-point responses (overlapping one ridge pixel at each end) the ridge is at least 9 px long', 'expected end points ds*(x0-2), ds*(x1+2) within 1.5*ds; vertical position within 0.9*ds; heights within 0.5*ds',
                'lines of the two runs of the rotation clause are matched by nearest end points (the engine orders lines with random jitter)']
 N = {'quick': 340, 'thorough': 17000}
-CLASSES = ['maps', 'maps', 'maps_sloped', 'maps_endpoints', 'maps_many', 'detect_rot', 'detect_rot', 'maps_short', 'detect_columns']
-REQUIRED = ['column_pages', 'same_row_pairs', 'parse_calls', 'ridges_checked', 'sloped_ridges', 'endpoint_ridges', 'short_ridges', 'detect_pairs', 'rotated_lines_compared', 'rot1', 'rot2', 'rot3', 'regions_compared']
+CLASSES = ['maps', 'maps', 'maps_sloped', 'maps_endpoints', 'maps_many', 'detect_rot', 'detect_rot', 'maps_short', 'detect_columns', 'columns_separator']
+REQUIRED = ['separator_pages', 'column_pages', 'same_row_pairs', 'parse_calls', 'ridges_checked', 'sloped_ridges', 'endpoint_ridges', 'short_ridges', 'detect_pairs', 'rotated_lines_compared', 'rot1', 'rot2', 'rot3', 'regions_compared']
 SHARDS = {'quick': 8, 'thorough': 16}
 # 'within one pixel': the engine's un-rotation uses W - y where the exact inverse is W - 1 - y (exactly 1 px apart); outlines are float32
 # arrays, so the observed difference can exceed 1 by float32 round-off (1.0000038 seen at x = 290 in the thorough tier)
@@ -31,10 +31,23 @@ def setup(ctx):
     p = stubs.make_parsenet(ctx.tmpdir + '/parsenet.pt')
     with contextlib.redirect_stdout(io.StringIO()):
         ctx.eng = LayoutEngine(p, torch.device('cpu'), downsample=2, adaptive_downsample=False, detection_threshold=0.2)
+        ps = stubs.make_parsenet_with_separators(ctx.tmpdir + '/parsenet_sep.pt')
+        ctx.eng_sep = {ds: LayoutEngine(ps, torch.device('cpu'), downsample=ds, adaptive_downsample=False, detection_threshold=0.2) for ds in (2, 4)}
 
 
 def gen(rng, i, ctx):
     cls = CLASSES[i % len(CLASSES)]
+    if cls == 'columns_separator':
+        # two columns divided by a separator response; a line of one column ends between two lines of the other and reaches a few map pixels across the separator
+        Hm, Wm = 100, 240
+        sep = int(rng.integers(100, 112))
+        yl = int(rng.integers(40, 52))
+        ridges = [(int(rng.integers(6, 20)), sep + int(rng.integers(2, 5)), yl),
+                  (sep - int(rng.integers(1, 4)), int(rng.integers(180, 230)), yl - int(rng.integers(13, 17))),
+                  (sep - int(rng.integers(1, 4)), int(rng.integers(180, 230)), yl + int(rng.integers(13, 17)))]
+        if rng.random() < 0.5:
+            ridges.append((sep - 2, int(rng.integers(170, 230)), yl + int(rng.integers(28, 34))))
+        return {'cls': cls, 'map_size': [Hm, Wm], 'separator_x': sep, 'ridges': ridges, 'ds': int(rng.choice([2, 4])), 'mirrored': bool(rng.random() < 0.5), 'rot': int(rng.integers(0, 4))}
     if cls == 'detect_columns':
         # two text columns whose lines sit on the same rows, with different extents and different heights per line
         Himg, Wimg = int(rng.integers(300, 460)) // 2 * 2, int(rng.integers(600, 760)) // 2 * 2
@@ -122,6 +135,8 @@ def check(case, mon, ctx):
         return check_rot(case, mon, ctx)
     if case['cls'] == 'detect_columns':
         return check_columns(case, mon, ctx)
+    if case['cls'] == 'columns_separator':
+        return check_separator(case, mon, ctx)
     eng = ctx.eng
     ds = case['ds']
     maps, rows = build_maps(case)
@@ -243,7 +258,8 @@ def check_rot(case, mon, ctx):
         if not ok:
             # region polygons may start at a different vertex: compare as shapes (boundaries within 1 px)
             from vf.genlib import same_polygon_shape
-            ok = any(same_polygon_shape(p, e, ROT_TOL) for e in exp_p if len(e) >= 3)
+            # (one pixel per coordinate is up to sqrt(2) px between the boundaries)
+            ok = any(same_polygon_shape(p, e, ROT_TOL * 1.4143) for e in exp_p if len(e) >= 3)
         if not ok:
             mon.violation('rotated-analysis-returns-original-coordinates', dict(w, what='region', got=p, expected=[e.tolist() for e in exp_p][:3]))
 
@@ -295,3 +311,39 @@ def check_columns(case, mon, ctx):
         ti = sg.Polygon(np.asarray(t[i], dtype=np.float64))
         if not ti.buffer(1.0).contains(sg.LineString(bi)):
             mon.violation('outline-encloses-the-baseline-band', dict(w, note='outline returned at this position does not contain the baseline returned at the same position', line=i, baseline=bi, outline=t[i]))
+
+
+def check_separator(case, mon, ctx):
+    """two columns with a separator: after the standard region assignment (as LayoutExtractor does it) every ridge yields exactly one text line"""
+    import shapely.geometry as sg
+    from pero_ocr.core.layout import RegionLayout
+    from pero_ocr.layout_engines import layout_helpers as helpers
+    Hm, Wm = case['map_size']
+    ds, k = case['ds'], case['rot']
+    m = np.zeros((Hm, Wm, 3), np.uint8)
+    for x0, x1, y in case['ridges']:
+        m[y, x0:x1 + 1, 0] = 255
+        m[y - 1, x0:x1 + 1, 0] = 76
+        m[y + 1, x0:x1 + 1, 0] = 76
+        m[y - 2:y + 3, x0:x1 + 1, 2] = 75
+    m[0:Hm - 10, case['separator_x']:case['separator_x'] + 2, 1] = 255
+    if case['mirrored']:
+        m = np.ascontiguousarray(m[:, ::-1])
+    img = np.repeat(np.repeat(m, ds, axis=0), ds, axis=1)
+    src = np.ascontiguousarray(np.rot90(img, k=-k))
+    eng = ctx.eng_sep[ds]
+    with contextlib.redirect_stdout(io.StringIO()):
+        p_list, b_list, h_list, t_list = eng.detect(src, rot=k)
+    mon.count('separator_pages')
+    mon.mark_nontrivial()
+    n = len(case['ridges'])
+    w = {'ridges': case['ridges'], 'separator_x': case['separator_x'], 'ds': ds, 'mirrored': case['mirrored'], 'rot': k}
+    if len(b_list) != n:
+        mon.violation('one-line-per-ridge', dict(w, lines=len(b_list), where='LayoutEngine.detect'))
+        return
+    regions = [RegionLayout('r%03d' % i, p) for i, p in enumerate(p_list)]
+    with contextlib.redirect_stdout(io.StringIO()):
+        regions = helpers.assign_lines_to_regions(b_list, h_list, t_list, regions)
+    lines = [(r.id, l.id, np.round(np.asarray(l.baseline)[[0, -1]]).tolist()) for r in regions for l in r.lines]
+    if len(lines) != n:
+        mon.violation('one-line-per-ridge', dict(w, where='after assigning the detected lines to the detected regions (as the layout extractor does)', text_lines=lines, regions=len(p_list)))
